@@ -9,14 +9,14 @@
 (* demanded (FaultScope = "one").                                          *)
 (***************************************************************************)
 EXTENDS JsonText, Json, CSV, IOUtils
-CONSTANTS MutSigma
+CONSTANTS MutSigma, Kinds
 VARIABLES b, kind, pos, ch
 
 Base == ndJsonDeserialize(IOEnv.BASE)
 BT(i) == Base[i].t
 
 Init == /\ b \in 1..Len(Base)
-        /\ kind \in {"prefix", "delete", "replace", "insert"}
+        /\ kind \in Kinds
         /\ pos \in 0..Len(BT(b))
         /\ ch \in MutSigma
         /\ CASE kind = "prefix"  -> pos < Len(BT(b)) /\ ch = CHOOSE c \in MutSigma : TRUE
